@@ -81,15 +81,16 @@ def split_pack_handle(vc, ph, content0, buf0, written):
     """Put an append-mode handle into an arbitrary state whose logical content is content0 ++ buf0 ++ written: the
     boundary between the kernel-visible part and the user-space buffer lies inside the old buffer or inside the newly
     written part (flushed content only grows). Case-split so that every term stays an extraction of a variable."""
+    empty_buf0 = isinstance(buf0, bytes) and buf0 == b''
     content0, buf0, written = SBytes.of(content0), SBytes.of(buf0), SBytes.of(written)
     j = SInt.fresh('boundary')
-    if vc.choose(2, label='flushed_up_to:old_buffer|new_data') == 0:
+    if not empty_buf0 and vc.choose(2, label='flushed_up_to:old_buffer|new_data') == 0:
         vc.assume(b_and(j >= 0, j <= buf0.length()))
         ph.world.set_data(ph.ino, content0 + buf0.slice(0, j))
         ph.buf = buf0.slice(j, None) + written
     else:
         vc.assume(b_and(j >= 0, j <= written.length()))
-        ph.world.set_data(ph.ino, content0 + buf0 + written.slice(0, j))
+        ph.world.set_data(ph.ino, (content0 if empty_buf0 else content0 + buf0) + written.slice(0, j))
         ph.buf = written.slice(j, None)
     ph.kpos = ph.content().length()
 
@@ -143,7 +144,8 @@ class WriteDataToPackfile(CUnit):
             yield 'appended_is_a_complete_zlib_stream_of_the_object', b_and(EM.zvalid(appended), EM.dec(True, appended) == o.rest)
         else:
             yield 'appended_is_exactly_the_object', appended == o.rest
-        yield 'source_fully_consumed', a.read_handle.pos == a.read_handle.content.length()
+        rv = read_view(a.read_handle)
+        yield 'source_fully_consumed', rv.pos == rv.content.length()
 
     # callee mode: the appended bytes are *defined* as the specified encoding of the source's rest
     def havoc(self, vc, I, a):
@@ -183,7 +185,7 @@ def pack_full(vc, w, c, i, known=None):
 
 def _loop_pack_id(vc, L):
     c = L.self
-    w = vc.world
+    w = FS.snap(vc.world)
     start = L.__getattr__('$start')
     known = L.__getattr__('$known')
     pid = SInt.of(L.pack_id)
@@ -217,7 +219,7 @@ class GetPackIdToWriteTo(CUnit):
         cur = c.f['_current_pack_id']
         if cur is not None:
             yield 'cached_id_nonneg', SInt.of(cur) >= 0
-        w = vc.world
+        w = FS.snap(vc.world)
         # layout: pack paths are files, never directories
         yield 'pack_paths_are_files', Forall(lambda i: b_not(w.is_dir(pack_pid(c, i))), sort='pack')
 
@@ -234,13 +236,13 @@ class GetPackIdToWriteTo(CUnit):
 
     def post(self, vc, a, o, ret):
         c = a.self
-        w = vc.world
+        w = FS.snap(vc.world)
         r = SInt.of(ret)
         yield 'not_below_the_cached_id', r >= o.start
         yield 'chosen_pack_is_absent_or_below_target', b_not(pack_full(vc, w, c, r, o.known))
         yield 'every_skipped_pack_is_full', Forall(lambda i: implies(b_and(i >= o.start, i < r), pack_full(vc, w, c, i, o.known)), sort='pack')
         yield 'result_is_cached', SInt.of(c.f['_current_pack_id']) == r
-        yield 'world_untouched', b_and(SBool(w.ent == o.ent), SBool(w.idata == o.idata))
+        yield 'world_untouched', b_and(SBool(vc.world.ent == o.ent), SBool(vc.world.idata == o.idata))
 
     def havoc(self, vc, I, a):
         c = a.self
@@ -386,6 +388,7 @@ UNITS += [GetPackIdToWriteTo(), LockPack()]
 # ----------------------------------------------------------------------------- add_streamed_object / add_object
 def layout_inv(vc, w, c):
     """Layout invariant of an initialised container: object paths are files, never directories."""
+    w = FS.snap(w)
     d = c.f['$dirs']
     yield 'loose_paths_are_files', Forall(lambda k: b_not(w.is_dir(loose_pid(c, k))))
     yield 'sandbox_paths_are_files', Forall(lambda u: b_not(w.is_dir(FS.PathVal(d.sandbox.base, d.sandbox.parts + (u,)).pid())))
@@ -442,7 +445,7 @@ class AddStreamedObject(CUnit):
                   fds=[f.num for f in w.open_fds], next_ino=w.next_ino)
 
     def post(self, vc, a, o, ret):
-        w, c = vc.world, a.self
+        w, c = FS.snap(vc.world), a.self
         now = w.inode_at(o.dest)
         yield 'returns_digest_of_exactly_the_streamed_bytes', SStr.of(ret) == o.key
         yield 'object_present_under_its_key', now != 0
@@ -452,12 +455,14 @@ class AddStreamedObject(CUnit):
         good_before = b_and(o.dest_ino != 0, EM.H(c.f['$hash'], o.dest_data) == o.key)
         yield 'correct_existing_copy_is_kept', implies(good_before, b_and(now == o.dest_ino, w.data(now) == o.dest_data))
         yield 'damaged_existing_copy_is_replaced', implies(b_and(o.dest_ino != 0, b_not(good_before)), fresh_copy)
-        yield 'no_descriptor_leaked', SBool.of([f.num for f in w.open_fds] == o.fds)
+        yield 'no_descriptor_leaked', SBool.of([f.num for f in vc.world.open_fds] == o.fds)
         yield 'stream_consumed', a.stream.pos == a.stream.content.length()
-        # frame: no other loose object and no pack is touched
-        yield 'other_objects_untouched', Forall(lambda k: implies(SStr.of(k) != o.key, b_and(
-            w.inode_at(loose_pid(c, k)) == SInt(z3.Select(o.ent, loose_pid(c, k).t)),
-            w.data(w.inode_at(loose_pid(c, k))) == SBytes(z3.Select(o.idata, w.inode_at(loose_pid(c, k)).t)))))
+        # frame: no other loose object and no pack is touched (checked here; not part of the summary used by callers)
+        if not getattr(self, '_as_callee', False):
+            lw = vc.world
+            yield 'other_objects_untouched', Forall(lambda k: implies(SStr.of(k) != o.key, b_and(
+                lw.inode_at(loose_pid(c, k)) == SInt(z3.Select(o.ent, loose_pid(c, k).t)),
+                lw.data(lw.inode_at(loose_pid(c, k))) == SBytes(z3.Select(o.idata, lw.inode_at(loose_pid(c, k)).t)))))
 
 
     # callee mode
@@ -473,6 +478,17 @@ class AddStreamedObject(CUnit):
 
 
 AddStreamedObject.pre_callee = lambda self, vc, a: AddStreamedObject.pre(self, vc, a)
+
+
+def _aso_post_callee(self, vc, a, o, ret):
+    self._as_callee = True
+    try:
+        yield from AddStreamedObject.post(self, vc, a, o, ret)
+    finally:
+        self._as_callee = False
+
+
+AddStreamedObject.post_callee = _aso_post_callee
 
 
 class AddObject(CUnit):
